@@ -27,6 +27,30 @@ func SpecF6Control() Spec {
 	}}
 }
 
+// mint: a universal mint snapshot (consensus class, mint branch of reloadConsensusState) between
+// ordinary snapshots; the mint snapshot is the last topology entry while its marker is pending
+func SpecMint() Spec {
+	return Spec{Nodes: 7, Steps: []Step{
+		{Kind: "deposit", Chain: 1},
+		{Kind: "mint"},
+		{Kind: "deposit", Chain: 2},
+	}}
+}
+
+// mint whose marker write is overtaken by another chain's snapshot (F6 region on the mint branch),
+// after a pledge/accept cycle so that the mint distribution covers an eighth accepted node
+func SpecMintInterleaved() Spec {
+	return Spec{Nodes: 7, Steps: []Step{
+		{Kind: "deposit", Chain: 3, Big: true},
+		{Kind: "pledge", Src: []int{0}},
+		{Kind: "accept", Src: []int{1}},
+		{Kind: "mint", Inject: []int{4}},
+		{Kind: "deposit", Chain: 5, Nested: true},
+		{Kind: "mint"},
+		{Kind: "transfer", Chain: 6, Src: []int{4}},
+	}}
+}
+
 // F7 witness: pledge, then the node-accept sequence
 func SpecF7() Spec {
 	return Spec{Nodes: 7, Steps: []Step{
@@ -44,6 +68,11 @@ func SpecF7() Spec {
 // (interleave) ordinary snapshots of other chains run while a consensus snapshot waits
 // for its marker write.
 func GenSpec(r *vh.Rand, steps, cycles int, interleave bool) Spec {
+	return GenSpecMint(r, steps, cycles, 0, interleave)
+}
+
+// GenSpecMint appends `mints` universal mint snapshots (each followed by ordinary snapshots) to the workload.
+func GenSpecMint(r *vh.Rand, steps, cycles, mints int, interleave bool) Spec {
 	sp := Spec{Nodes: 7}
 	var spendable []int // steps whose output 0 is an unspent ordinary output
 	var bigs []int      // unspent pledge-amount deposits
@@ -98,6 +127,20 @@ func GenSpec(r *vh.Rand, steps, cycles int, interleave bool) Spec {
 	if pending >= 0 {
 		id := add(Step{Kind: "accept", Src: []int{pending}})
 		inject(id)
+	}
+	for m := 0; m < mints; m++ {
+		id := add(Step{Kind: "mint"})
+		inject(id)
+		for j := r.Range(1, 2); j > 0; j-- {
+			if len(spendable) > 0 && r.Bool() {
+				i := r.Intn(len(spendable))
+				src := spendable[i]
+				spendable = append(spendable[:i], spendable[i+1:]...)
+				spendable = append(spendable, add(Step{Kind: "transfer", Chain: r.Intn(7), Src: []int{src}, Ext: r.Intn(7)}))
+			} else {
+				spendable = append(spendable, add(Step{Kind: "deposit", Chain: r.Intn(7), Ext: r.Intn(7)}))
+			}
+		}
 	}
 	return sp
 }
@@ -259,14 +302,19 @@ func mainC21(h *Harness) {
 	h.RunWorkload("corpus-F6-control", SpecF6Control(), limit(consensusWindow(false), 5, c.Rng.Fork("l1")))
 	switch c.Tier {
 	case "quick":
-		h.RunWorkload("gen-0", GenSpec(c.Rng.Fork("w0"), 7, 1, true), limit(consensusWindow(false), 12, c.Rng.Fork("l2")))
+		h.RunWorkload("corpus-mint", SpecMint(), limit(consensusWindow(true), 8, c.Rng.Fork("l3")))
+		h.RunWorkload("gen-0", GenSpec(c.Rng.Fork("w0"), 7, 1, true), limit(consensusWindow(false), 10, c.Rng.Fork("l2")))
 	case "search":
+		h.RunWorkload("corpus-mint", SpecMint(), consensusWindow(true))
+		h.RunWorkload("corpus-mint-interleaved", SpecMintInterleaved(), consensusWindow(true))
 		for i := 0; i < 4; i++ {
-			h.RunWorkload(fmt.Sprintf("gen-%d", i), GenSpec(c.Rng.Fork(fmt.Sprint("w", i)), 9, 1, true), consensusWindow(true))
+			h.RunWorkload(fmt.Sprintf("gen-%d", i), GenSpecMint(c.Rng.Fork(fmt.Sprint("w", i)), 9, 1, i%2, true), consensusWindow(true))
 		}
 	default:
+		h.RunWorkload("corpus-mint", SpecMint(), everyPoint)
+		h.RunWorkload("corpus-mint-interleaved", SpecMintInterleaved(), everyPoint)
 		for i := 0; i < 8; i++ {
-			h.RunWorkload(fmt.Sprintf("gen-%d", i), GenSpec(c.Rng.Fork(fmt.Sprint("w", i)), 10+2*i, 2, i%4 != 3), everyPoint)
+			h.RunWorkload(fmt.Sprintf("gen-%d", i), GenSpecMint(c.Rng.Fork(fmt.Sprint("w", i)), 10+2*i, 2, 1+i%2, i%4 != 3), everyPoint)
 		}
 	}
 }
